@@ -134,6 +134,7 @@ def verify_contract(qn, timeout_ms, only_variant=None):
             try:
                 _run_one(ip, path, con, f, node, variant, vi)
             finally:
+                out["stores_checked"] = out.get("stores_checked", 0) + getattr(ip, "stores_checked", 0)
                 out["assumptions"] |= ip.assumptions_used
                 out["inlined"] |= ip.inlined
                 out["contract_calls"] |= ip.contract_calls
@@ -195,6 +196,13 @@ def verify_contract(qn, timeout_ms, only_variant=None):
                         rec["replay"] = {"reproduced": False, "error": repr(e)[:300]}
                 rec["variant"] = {k: repr(v)[:100] for k, v in variant.items()}
             out["obligations"].append(rec)
+    if con.frame_only and not any(o["kind"] == "frame" and o["status"] != "proved" for o in out["obligations"]):
+        # the frame obligation of the function: every store executed on every explored path targets an object allocated
+        # in the activation or a location of its `modifies` clause (decided by the executor's provenance tracking;
+        # stores into pre-existing objects would have produced failing `frame[...]` obligations above)
+        out["obligations"].append({"name": f"{qn}#modifies-only[{', '.join(con.modifies) or 'nothing'}]", "kind": "frame",
+                                   "status": "proved", "solver_s": 0.0, "backend": "pyvc-provenance", "reason": None,
+                                   "info": {"paths": out["paths"], "stores_checked": out.get("stores_checked", 0)}, "model": None})
     out["wall_s"] = round(time.time() - t_start, 2)
     return out
 
@@ -531,7 +539,9 @@ _FIRED = [False]
 
 
 def _alarm(sig, frm):
+    import signal
     _FIRED[0] = True
+    signal.alarm(1)          # re-arm: an exception raised inside a z3 ctypes callback is swallowed
     raise _Budget()
 
 
